@@ -80,7 +80,8 @@ const EVENT_FLAGS = {
 function childSlotValueNames(children) {
   const out = []
   for (const c of children) for (const s of c.slotVals || []) if (!out.includes(dashToCamel(s.name))) out.push(dashToCamel(s.name))
-  return out.length ? out : undefined
+  // (the order in which the names are listed carries no meaning; both sides are compared sorted)
+  return out.length ? out.sort() : undefined
 }
 
 export class Renderer {
@@ -294,6 +295,6 @@ export function normalizeObserved(nodes) {
     }
     if (n.k === 'slot') return { k: 'slot', name: n.name, slot: n.slot, ch }
     if (n.k === 'virtual') return { k: 'virtual', slot: n.slot, children: normalizeObserved(n.children) }
-    return { k: 'el', tag: n.tag, slot: n.slot, ch, generics: n.generics || {}, dsv: n.dsv, ...(n.props ? { props: n.props } : {}), children: normalizeObserved(n.children) }
+    return { k: 'el', tag: n.tag, slot: n.slot, ch, generics: n.generics || {}, dsv: n.dsv ? [...n.dsv].sort() : n.dsv, ...(n.props ? { props: n.props } : {}), children: normalizeObserved(n.children) }
   })
 }
